@@ -63,6 +63,8 @@ type Outcome struct {
 	// of those releases had more than one candidate.
 	GatedOps     int `json:"gated_ops,omitempty"`
 	GatedChoices int `json:"gated_choices,omitempty"`
+	// CtxCancelled: the evaluation's context was cancelled by a ctx_cancel fault.
+	CtxCancelled bool `json:"ctx_cancelled,omitempty"`
 	// GoroutineLeak: evaluation returned, but goroutines it started stay blocked for good.
 	GoroutineLeak bool `json:"goroutine_leak,omitempty"`
 	// LateReleases counts ContainerLogs calls that were still parked when evaluation returned.
@@ -286,6 +288,7 @@ func bubble(p *Plan, world *World, v *Variant, opts ExecOpts, out *Outcome) {
 	out.Transport = d.seq
 	out.Hash = d.hash
 	out.Log = d.log
+	out.CtxCancelled = d.CtxCancelled
 }
 
 // schedule drives the run: at every quiescence point it releases exactly one
